@@ -428,11 +428,31 @@ func RunC20(cfg simrt.Config, o world.Opts) *world.Result {
 			}
 			s.SetMapOrder(mo)
 			jsonMode := i%2 == 1
+			// how the repository is named: absolute path, relative path from its parent, or not
+			// at all (the tool then takes the current directory)
 			args := []string{"-C", repo}
+			cwd := ""
+			switch ch("c20.repo-arg", 4) {
+			case 1:
+				cwd, args = filepath.Dir(repo), []string{"-C", filepath.Base(repo)}
+			case 2:
+				cwd, args = repo, nil
+			case 3:
+				cwd, args = repo, []string{"-C", "."}
+			}
 			if jsonMode {
 				args = append(args, "-json")
 			}
+			saved, _ := os.Getwd()
+			if cwd != "" {
+				if err := os.Chdir(cwd); err != nil {
+					panic(err)
+				}
+			}
 			got := runTB(args, capture)
+			if cwd != "" {
+				os.Chdir(saved)
+			}
 			desc := fmt.Sprintf("schedule %d (map order %s, json=%v)", i, orderNames[mo], jsonMode)
 			logf("%s: error=%v output=%q", desc, got.err, first80(got.out))
 			h.Str(fmt.Sprint(got.err != nil))
